@@ -26,5 +26,14 @@ PROPS = {
         "explanation": "Lean theorem: coded verifier contribution = w * reference residual for arbitrary proof elements; tie: tapped residual of the real verifier is a non-zero multiple of the model's reference residual and the verdict equals the reference verdict, on honest and mutated proofs.",
         "assumptions": COMMON_ASSUME + ["knowledge soundness of the reference Bulletproofs+ relation itself is the paper's theorem (discrete log + random oracle), not re-proved"],
     },
+    "C03": {
+        "level": "proof",
+        "theorems": T("C03_chunk_all_valid", "C03_chunk_one_invalid", "C03_chunk_at_most_one_weight", "C03_result_aligned", "C03_accept_iff", "C03_refuses", "C03_perm_chunk", "C03_prefix_defect"),
+        "leancheck": ["Bpp.BatchFlow", "Bpp.Properties"],
+        "scenarios": [{"name": "C03"}],
+        "rule": "batches over the free module assembled from a pool of valid/invalid templates (mixed aggregation, capacity, seeding); distinct = (batch size, composition kind, position of the odd member)",
+        "explanation": "Lean theorems: batch control-flow model returns one aligned result per member and accepts iff well-formed and every member valid, for every chunk size, batch size and order; chunk algebra: all-valid => sum vanishes, one invalid => rejected, at most one cancelling weight. Tie: real Ok/Err and mask pattern equal the model's on every generated batch; oracle: real batch verdict = conjunction of real singleton verdicts, length k, i-th mask = i-th member's blinding.",
+        "assumptions": COMMON_ASSUME + ["batch weights behave as a random oracle output (wrongful acceptance probability <= 1/l, theorem C03_chunk_at_most_one_weight)", "requires fix: commit e4bc4a5 in /repo"],
+    },
 }
 NOT_CLAIMED = {}
